@@ -121,4 +121,59 @@ theorem sessionValidate_none {E : Env} {p : Proof} {app : App} {nodes : List (Op
                 · rename_i hn
                   refine ⟨by simpa using hp, by simpa using hc, by omega, by simpa using hn⟩
 
+theorem preChecks_none {E : Env} {r : Relay} {sbhArg : Int} (h : preChecks E r sbhArg = none) :
+    ¬ (r.data = "" ∧ r.path = "") ∧
+    (E.height - E.blockAllowance ≤ r.metaHeight ∧ r.metaHeight ≤ E.height + E.blockAllowance) ∧
+    r.proof.requestHash = E.requestHashOf r ∧ r.proof.chain ∈ E.hosted ∧ r.proof.sbh = sbhArg ∧
+    E.prevCtxOk sbhArg = true := by
+  unfold preChecks at h
+  split at h
+  · cases h
+  · rename_i h1
+    split at h
+    · cases h
+    · rename_i h2
+      split at h
+      · cases h
+      · rename_i h3
+        split at h
+        · cases h
+        · rename_i h4
+          split at h
+          · cases h
+          · rename_i h5
+            split at h
+            · cases h
+            · rename_i h6
+              refine ⟨h1, by omega, by simpa using h3, by simpa using h4, by simpa using h5, by simpa using h6⟩
+
+theorem evidenceChecks_none {E : Env} {max : Int} (h : evidenceChecks E max = none) :
+    E.evidence.sealed_ = false ∧ E.evidence.has = false ∧ E.evidence.n < max := by
+  unfold evidenceChecks at h
+  split at h
+  · cases h
+  · split at h
+    · cases h
+    · rename_i h2
+      split at h
+      · cases h
+      · rename_i h3
+        split at h
+        · cases h
+        · rename_i h4
+          simp only [Bool.or_eq_true, not_or, Bool.not_eq_true] at h2
+          exact ⟨h2.1, by simpa using h3, by omega⟩
+
+theorem sessionStage_none {E : Env} {p : Proof} {app : App} {count sbhArg : Int}
+    (h : sessionStage E p app count sbhArg = none) :
+    ∃ nodes, E.session = .ok nodes ∧ app.pubRaw = p.token.appPub ∧ p.chain ∈ app.chains ∧
+      count ≤ nodes.length ∧ some E.nodeAddr ∈ nodes := by
+  unfold sessionStage at h
+  split at h
+  · cases h
+  · split at h
+    · cases h
+    · rename_i nodes hs
+      exact ⟨nodes, hs, sessionValidate_none h⟩
+
 end RelayAuth
